@@ -136,6 +136,9 @@ func (p *Prog) forAllShape(fn *ssa.Function) (over string, ok bool) {
 	if fn == nil || !returnsBoolOnly(fn) {
 		return "", false
 	}
+	if p.forAllByContainsFunc(fn) {
+		return "slice", true
+	}
 	comps := sccs(fn.Blocks, blockSet(fn.Blocks))
 	if len(comps) != 1 {
 		return "", false
@@ -766,6 +769,11 @@ func checkD2(c *Ctx, pr *prioRoles) {
 					if call, isCall := st.Val.(*ssa.Call); isCall {
 						if bi, isB := call.Call.Value.(*ssa.Builtin); isB && bi.Name() == "append" {
 							appenders[fn] = true
+							// extended from itself (append(dsc.uncrowded, k) would drop every registered
+							// priority that is not in the other list: registered and never read again)
+							if c.R.Property != "C15" {
+								c.R.Check(p.isFieldLoad(call.Call.Args[0], "priorities"), "D2", p.FnKey(fn)+"#append-base", p.InstrPos(in), "the registered list is extended from itself", "the registered list is replaced by "+p.Sym(call.Call.Args[0]).String()+" plus the new key: the priorities that are not in that list are no longer visited although their inputs stay registered")
+							}
 							// duplicate-free: dominated by "key not registered"
 							dupFree := false
 							if el, okv := varargsElem(call.Call.Args[1]); okv {
@@ -1312,4 +1320,122 @@ func isCountingPhiLoose(ph *ssa.Phi, st *ssa.Store) bool {
 		}
 	}
 	return haveZero && haveInc
+}
+
+// forAllByContainsFunc: the same for-all spelled with the standard helper,
+//
+//	return !slices.ContainsFunc(list, func(k uint) bool { return distribution[k] == 0 })
+//
+// list and distribution being parameters of fn (the map captured by the literal).
+func (p *Prog) forAllByContainsFunc(fn *ssa.Function) bool {
+	var call *ssa.Call
+	for _, b := range fn.Blocks {
+		for _, in := range b.Instrs {
+			switch x := in.(type) {
+			case *ssa.Call:
+				cal := p.Callee(x)
+				if cal == nil {
+					return false
+				}
+				name := p.funcDisplay(cal)
+				if i := strings.Index(name, "["); i >= 0 {
+					name = name[:i]
+				}
+				if name != "slices.ContainsFunc" || call != nil {
+					return false
+				}
+				call = x
+			case *ssa.Alloc, *ssa.Store, *ssa.MakeClosure, *ssa.UnOp, *ssa.Return, *ssa.ChangeType:
+			default:
+				return false
+			}
+		}
+	}
+	if call == nil || len(fn.Blocks) != 1 {
+		return false
+	}
+	ret, isRet := fn.Blocks[0].Instrs[len(fn.Blocks[0].Instrs)-1].(*ssa.Return)
+	if !isRet || len(ret.Results) != 1 {
+		return false
+	}
+	if base, neg := condOf(ret.Results[0]); base != ssa.Value(call) || !neg {
+		return false
+	}
+	// the list: a slice parameter (possibly spilled because the literal could capture it)
+	paramOf := func(v ssa.Value) *ssa.Parameter {
+		v = stripChangeType(v)
+		if par, ok := v.(*ssa.Parameter); ok && par.Parent() == fn {
+			return par
+		}
+		var al *ssa.Alloc
+		if ld, ok := v.(*ssa.UnOp); ok && ld.Op == token.MUL {
+			al, _ = ld.X.(*ssa.Alloc)
+		} else {
+			al, _ = v.(*ssa.Alloc)
+		}
+		if al == nil {
+			return nil
+		}
+		var par *ssa.Parameter
+		n := 0
+		for _, ref := range *al.Referrers() {
+			if st, ok := ref.(*ssa.Store); ok && st.Addr == ssa.Value(al) {
+				n++
+				par, _ = st.Val.(*ssa.Parameter)
+			}
+		}
+		if n != 1 {
+			return nil
+		}
+		return par
+	}
+	list := paramOf(call.Call.Args[0])
+	if list == nil {
+		return false
+	}
+	if _, isSlice := list.Type().Underlying().(*types.Slice); !isSlice {
+		return false
+	}
+	mc, isMC := call.Call.Args[1].(*ssa.MakeClosure)
+	if !isMC {
+		return false
+	}
+	pred, _ := mc.Fn.(*ssa.Function)
+	if pred == nil || len(pred.Params) != 1 || len(pred.Blocks) != 1 {
+		return false
+	}
+	pret, isRet := pred.Blocks[0].Instrs[len(pred.Blocks[0].Instrs)-1].(*ssa.Return)
+	if !isRet || len(pret.Results) != 1 {
+		return false
+	}
+	bo, isBin := pret.Results[0].(*ssa.BinOp)
+	if !isBin || bo.Op != token.EQL {
+		return false
+	}
+	lk, zero := bo.X, bo.Y
+	if _, isL := lk.(*ssa.Lookup); !isL {
+		lk, zero = zero, lk
+	}
+	look, isL := lk.(*ssa.Lookup)
+	if zc, isC := zero.(*ssa.Const); !isL || !isC || constString(zc) != "0" || look.CommaOk || look.Index != ssa.Value(pred.Params[0]) {
+		return false
+	}
+	// the map looked up: a free variable bound to a map parameter of fn
+	mv := look.X
+	if ld, ok := mv.(*ssa.UnOp); ok && ld.Op == token.MUL {
+		mv = ld.X
+	}
+	fv, isFV := mv.(*ssa.FreeVar)
+	if !isFV {
+		return false
+	}
+	for i, f := range pred.FreeVars {
+		if f == fv && i < len(mc.Bindings) {
+			if par := paramOf(mc.Bindings[i]); par != nil {
+				_, isMap := par.Type().Underlying().(*types.Map)
+				return isMap
+			}
+		}
+	}
+	return false
 }
